@@ -300,6 +300,14 @@ impl Prop for C03 {
             (Req { secret: p() - big(1), index: (1 << 20) - 1, id: big(0), ..d.clone() }, vec![], None, None),
             (Req { secret: big(0), index: 1 << 19, ext: big(0), ..d.clone() }, vec![b'a'; 137], None, None),
         ];
+        // long signals that differ in one byte only: at lengths around and at multiples of the 136-byte hash block, the
+        // differing byte in the first, an inner and the last block
+        for (n, at) in [(272usize, 271usize), (272, 200), (272, 0), (408, 407), (136, 135), (273, 272)] {
+            let s1 = vec![b'a'; n];
+            let mut s2 = s1.clone();
+            s2[at] = b'b';
+            reals.push((Req { signal: s1, ..d.clone() }, s2, None, None));
+        }
         if !q {
             for (k, s) in fstar().into_iter().enumerate() {
                 reals.push((Req { secret: s, index: POS_ALPHABET[k % POS_ALPHABET.len()], ext: exts[k % 4].clone(), id: ids[k % 3].clone(), ..d.clone() }, signals[(k + 1) % 5].clone(), None, None));
@@ -314,7 +322,7 @@ impl Prop for C03 {
         ev.set("distinct_nontrivial", json!(evals - 1));
         ev.set("real_message_pairs", json!(reals.len()));
         ev.set("exhaustive", json!(true));
-        ev.set("rule", json!("full product {secret: F* + random} x {ext: 0,1,p-1,random} x {id: 0,1,limit-1} x ordered pairs of x over the hashes of 5 signals (incl. equal), and ordered pairs of x over F* (incl. 0, p-1, equal) for a subset of secrets: public values by proof_values_from_witness, nullifier equality, RLN::recover_id_secret on the two 288-byte encodings must return exactly the secret (x1 != x2) or an error/empty output (x1 == x2); crafted degenerate share pairs; pairwise-distinct nullifiers across (ext, id); real generate_rln_proof message pairs incl. cross-epoch and cross-id; every tuple is distinct"));
+        ev.set("rule", json!("full product {secret: F* + random} x {ext: 0,1,p-1,random} x {id: 0,1,limit-1} x ordered pairs of x over the hashes of 5 signals (incl. equal), and ordered pairs of x over F* (incl. 0, p-1, equal) for a subset of secrets: public values by proof_values_from_witness, nullifier equality, RLN::recover_id_secret on the two 288-byte encodings must return exactly the secret (x1 != x2) or an error/empty output (x1 == x2); crafted degenerate share pairs; pairwise-distinct nullifiers across (ext, id); real generate_rln_proof message pairs incl. cross-epoch and cross-id, and pairs of 136..408-byte signals differing in one byte of the first / an inner / the last hash block; every tuple is distinct"));
         ev.sample(json!({"secret": "p-1", "ext": "0", "id": "99", "x1": "H('')", "x2": "H('a'*137)"}));
         ev.sample(json!({"crafted": "same-x-different-y"}));
         ev.sample(json!({"real": reals[4].0.to_json()}));
